@@ -102,7 +102,7 @@ prop("C14", "proof",
      "blind_issue_complete: e-th root under the key premises good_key, which the harness checks on every run); zkpok_complete / honest_issuance_proof_accepted -- the whole "
      "issuance proof the holder generates (trusted-party proof, multi-secret proof, per-attribute opening and range proofs, opening and range proof of r) is accepted for every U "
      "(attribute count other than one); gating (blind_sign returns only when verify_proof returned true; a false proof is a panic = refusal); cl_update_complete (re-issuing after a revealed attribute changed verifies on the updated vector; verify_two_vectors_reduces: acceptance on the old vector too would make the two products of powers congruent); consumes: every generator only "
-     "takes draws from the front of the log. PARTIAL: rejection of mismatching / edited proofs is decided by correspondence (proofs equal integer for integer with logged draws; "
+     "takes draws from the front of the log. Soundness core (ClSound2.v): nispm / nisp2 acceptance equations, special soundness (nisp2: the SAME exponents under the issuer's bases and the commitment key) and rigidity. PARTIAL: rejection of mismatching / edited proofs is decided by correspondence (proofs equal integer for integer with logged draws; "
      "decisions equal on every mutated instance) + sweep over ALL non-empty U for n <= 3 (thorough 5), with and without trusted commitment, update_signature, field edits. "
      "Known findings F9 (unused randomness leaves) and F15 (sub-proof pairs not tied to C; zkpok_subproofs_untied) reported, not hidden; F15a repaired by 56a5ca8 (zkpok_loop_ties_range_proofs), F17 by 386b611 (zkpok_accepts_lengths).",
      "DESIGN.md §10 C14", NOTE_CL)
@@ -111,13 +111,14 @@ prop("C15", "proof",
      "every signature the issuer's check accepts and every sequence of logged draws whose random_bits values are not negative, whatever spok_gen returns passes spok_verify "
      "(nine-response protocol nisp5_complete with its five congruences; per-attribute opening proofs nisp2sec_complete_u; all range proofs boudot_complete; premises: commitment "
      "key over the issuer modulus, invertible bases -- each checked against the implementation's run by the harness); an accepted proof has its range proof on e made for the "
-     "sigma protocol's commitment Ce and passes the five-equation check. PARTIAL: rejection of mismatching statements / edited fields is decided by correspondence "
+     "sigma protocol's commitment Ce and passes the five-equation check; the per-attribute opening proofs are specially sound and rigid (nisp2sec_special_soundness, nisp2sec_rigid). PARTIAL: rejection of mismatching statements / edited fields is decided by correspondence "
      "(integer for integer, logged draws) + sweep over ALL U for n <= 3 (thorough 5). Known findings F9 (unused randomness leaves) and F15 (per-attribute sub-proof pairs not tied to the signature; spok_subproofs_untied) reported; F15a (range proof not tied to its opening proof) repaired by 56a5ca8 (spok_loop_ties_range_proofs), F17 (extra trailing list entries ignored) by 386b611 (spok_accepts_lengths).", "DESIGN.md §10 C15", NOTE_CL)
 prop("C16", "proof",
      "Proved: boudot_prove_below_fails / boudot_prove_above_fails -- for a value outside [rmin, rmax] the honest prover returns no proof, whatever the modulus, bases, randomness and draws (tolerance < 2^T); boudot_complete -- every proof the honest prover returns verifies, for every modulus, every pair of invertible bases, every interval, every value and every "
      "sequence of draws incl. negative randomness (all ten algorithms: same-secret, square, larger-interval, tolerance, square-decomposition; exponent arithmetic with negative "
      "exponents and completeness of the model's modular inverse proved from scratch); what an accepted proof pins: E' = E^(2^T) and the square proofs are about E_a_1 / E_b_1 "
      "themselves (F8 transplant, repaired by 291caf1); li_bounds_tied: prover and verifier use the same bound on D_1 (F11, repaired by ff66daa; source tie regenerated each run). "
+     "Soundness core (ClSound.v): same-secret, square and larger-interval sub-proofs are specially sound (two challenge/response tuples for one first message: g^dD h^dD1 == E^dc, ONE dD for both commitments) and rigid (same challenge, other responses: a relation between the bases or a hash collision). "
      "PARTIAL: rejection of edited proofs / other bounds, bases, modulus is decided by correspondence (proofs equal integer for integer, rejection loops included) + sweep "
      "(widths 1, 2, 3, 2^k, 2^256-1, endpoints, out-of-range provers, transplant forgeries, forced-gap replay). Known finding F13 (prove panics for rmax <= 0) reported.",
      "DESIGN.md §10 C16", NOTE_CL)
